@@ -60,6 +60,9 @@ theorem backOff_snd (ast0 now : Int) :
     (backOff ast0 now).2 = if now - ast0 = 0 then 86400000000 else now - ast0 := by
   unfold backOff dayUs; simp only; split <;> rfl
 
+theorem fdiv_one_us (e : Int) : Int.fdiv e 1 = e := by
+  rw [Int.fdiv_eq_ediv_of_nonneg _ (by decide)]; exact Int.ediv_one e
+
 theorem tie_tail (now ast0 depth0 : Int) (ref : Ref) (mup leeway : Option Int) :
     liveTail pyRound now (floorSec now) 0 depth0 ast0 ref.segmentDuration ref.timescale mup leeway =
       modelTail now ast0 depth0 ref mup leeway := by
@@ -68,7 +71,7 @@ theorem tie_tail (now ast0 depth0 : Int) (ref : Ref) (mup leeway : Option Int) :
   rcases mup with _ | mup <;> rcases leeway with _ | leeway
   all_goals
     simp only [liveTail, modelTail, backOff_fst, backOff_snd, clampDepth, effectiveMup, publish, floorSec, usPerSec,
-      defaultMup_eq, Int.zero_mul, Int.fdiv_eq_ediv_of_nonneg _ hq]
+      defaultMup_eq, Int.zero_mul, fdiv_one_us, Int.fdiv_eq_ediv_of_nonneg _ hq]
   all_goals
     by_cases hm : mup ≤ 0
     · simp only [hm, if_true, ne_eq, not_true_eq_false, if_false]
